@@ -315,6 +315,13 @@ func main() {
 			})
 		}
 	}
+	// the whole body of small pure functions whose Lean model is a transcription of the loop (Model/BSearch.lean):
+	// any edit of the body is a broken obligation and sends the check to the search for a failing input
+	for _, fn := range []string{"btreeNode.findCellOffsetByKey", "btreeNode.cellKey", "btreeNode.isFull"} {
+		if fd, ok := sf[fn]; ok {
+			facts["body.storage."+fn] = st.src(fd.Body)
+		}
+	}
 	// who writes to the data file
 	var writers []string
 	for name, fd := range sf {
